@@ -223,7 +223,7 @@ class Judge:
                 bad(f"C13|suppress|positive-not-suppressed|sid={_sidcat(sid)}", f"positive reply {sent.hex()} sent although the suppress bit is set")
             if not want_suppressed and sent is None:
                 kind = "negative" if h[0] == 0x7F else "positive"
-                bad(f"C13|suppress|{kind}-suppressed|sid={_sidcat(sid)}", f"{kind} reply {h.hex()} was suppressed")
+                bad(f"C13|suppress|{kind}-suppressed|svc={_svc(sid)}", f"{kind} reply {h.hex()} was suppressed")
             if sent is not None and sent != h:
                 bad(f"C13|suppress|reply-differs-from-unsuppressed|sid={_sidcat(sid)}", f"sent {sent.hex()} but unsuppressed run gives {h.hex()}")
         elif sent is not None:
